@@ -13,6 +13,10 @@ Definition mk_range_line (base size : Z) : option range :=
   | None => None
   end.
 
+(* MinidumpModuleList::read: a raw module with a zero size, or one that would reach past the address space, is
+   dropped before MinidumpModule::read; the rest go to from_modules in stream order *)
+Definition module_read_keep (base size : Z) : bool := negb ((size =? 0) || (size >? U64MAX - base)).
+
 Record c08_out := { o_panic : bool; o_table : list (Z * Z * Z); o_gets : list (list Z) }.
 
 Definition pack {V} (tag : V -> Z) (qs : list Z) (r : outcome (list (range * V))) : c08_out :=
@@ -31,6 +35,7 @@ Definition third (t : Z * Z * Z) : Z := snd t.
    kind 3: unloaded modules (sorted vec + filter)
    kind 4: symbol-file records (FUNC, STACK CFI INIT): value carries (addr,size,tag)
    kind 5: line records of one FUNC: value carries (addr,size,tag), zero sizes filtered
+   kind 8: MinidumpModuleList::read (the read-time filter, then the index-valued builder)
    kind 7: STACK WIN records of one type (frame data or FPO), file order: insert_win_stack_info for each, then the
            parser-local builder; a table entry / lookup answer is the record as stored: [tag; address; size] *)
 Definition run_win (p : profile) (ents : list (Z * Z * Z)) (qs : list Z) : c08_out :=
@@ -59,6 +64,11 @@ Definition run_case (kind : Z) (ents : list (Z * Z * Z)) (qs : list Z) : c08_out
     pack third qs (build_p triple_eqb
       (drop_none (map (fun e => let '(b, s, v) := e in (mk_range b s, e)) ents)))
   else if kind =? 7 then run_win Debug ents qs
+  else if kind =? 8 then
+    (* module list read from a stream: the tag of an entry is its position in the stream (it rides in the checksum) *)
+    pack (fun v => v) qs (build Z.eqb
+      (map (fun ei => let '((b, s, _), i) := ei in (mk_range b s, i))
+           (filter (fun ei => let '((b, s, _), i) := ei in module_read_keep b s) (enumerate_from 0 ents))))
   else
     pack third qs (build triple_eqb
       (map (fun e => let '(b, s, v) := e in (mk_range_line b s, e))
